@@ -256,6 +256,13 @@ Theorem C10_sky_same_meaning : forall lon lat lon' lat' tol : Q,
   vdist2 (unitvec (Q2R lon) (Q2R lat)) (unitvec (Q2R lon') (Q2R lat')) <= (2 + PI) * (rad (Q2R tol)) ^ 2.
 Proof. exact sky_same_check_meaning. Qed.
 
+(* ... and the start values of Distort per convention (TPV: the polynomial alone; SIP: a correction added to
+   the input), translated from the source. *)
+Theorem C10_distort_is_source : forall a b x y,
+  distort_with DScamp a b x y = src_distort true (poly2d a x y) (poly2d b x y) x y /\
+  distort_with DSip a b x y = src_distort false (poly2d a x y) (poly2d b x y) x y.
+Proof. exact distort_is_source. Qed.
+
 (* Non-vacuity: concrete distorted headers meet the hypotheses used above. *)
 Definition ex_header (p : proj) : header :=
   {| h_proj := p; h_crpix1 := 100; h_crpix2 := 200; h_crval1 := 359; h_crval2 := 89;
